@@ -209,6 +209,22 @@ T_FlowLists == {<<O3>>, <<DST, OFL>>, <<OC>>, <<VID7, OIN>>, <<>>}
 T_OutLists == {<<OTAB>>, <<O2, OTAB>>, <<OC, OTAB>>} \cup {<<r, OTAB>> : r \in RewQ}
 T_Shapes == {"u_udp", "t_tcp_opts"}
 
+\* ---- TM: output:TABLE ANYWHERE in a packet-out list (round 7): the entry it meets rewrites the Ethernet header
+\* AND headers below it (so that "some of the entry's rewrites reach the rest of the list" is neither of the two
+\* readings Datapath!RunP leaves open), tagged and untagged frames, rewrites before / after TABLE, TABLE twice
+TM_FlowLists == {<<DST, NDST, O2>>, <<SRC, VID7, TPD, O2>>, <<NSRC, TPS, TOS, STRIP, O2>>, <<PCP5, O2, NDST, O1>>,
+                 <<DST, NDST, OC>>, <<O2>>}
+TM_OutLists == {<<OTAB, O3>>, <<OTAB, OTAB>>, <<OTAB, OC>>, <<O1, OTAB, TOS, O3>>, <<OTAB, NDST, OTAB, O3>>,
+                <<OTAB, SRC, NSRC, OFL>>}
+               \cup {<<OTAB, r, O3>> : r \in RewQ} \cup {<<r, OTAB, O3>> : r \in {VID7, NDST, TPS}}
+TM_Shapes == {"u_udp", "t_tcp_opts"}
+\* ---- TB: ... and the frame a TABLE miss / the entry's output:CONTROLLER handed to the controller is released later:
+\* every operation sequence of length D (the rewrites that FOLLOW output:TABLE in the list are history the abstract
+\* state does not show)
+TB_FlowLists == {<<DST, NDST, OC, O2>>}
+TB_OutLists == {<<OTAB, TOS, O3>>, <<OTAB, NDST, TPD, O3>>, <<OTAB, VID7, O3>>, <<OC, OTAB, PCP5, SRC, O3>>}
+TB_BufLists == {<<O2>>, <<OTAB, NSRC, O3>>}
+
 \* ---- C: the port-flag product
 CQ_FlowLists == {<<OFL>>, <<OALL>>, <<OC>>}
 C_FlowLists == {<<OFL>>, <<OALL>>, <<O1>>, <<OIN>>, <<OC>>, <<O2, OFL>>}
